@@ -142,10 +142,18 @@ def main_cli(spec, events):
         with open(p, 'w') as f:
             f.write('>c\n' + ''.join('ATGAC' + ''.join(rng.choice('ACGT') for _ in range(13)) for _ in range(spec['size'])) + '\n')
         files.append(p)
+    extra = []
+    if spec.get('with_meta'):
+        # ids and metadata given on the command line (-i / -m)
+        with open('ids.txt', 'w') as f:
+            f.write(''.join(f'custom-{i}\n' for i in range(spec['n'])))
+        with open('meta.json', 'w') as f:
+            json.dump(dict(id='set/1', name='a set', version='1.0', id_attr='key', description='d', extra=dict(a=1)), f)
+        extra = ['-i', 'ids.txt', '-m', 'meta.json']
     install(spec, events)
     from gambit.cli import cli
     try:
-        cli.main(['signatures', 'create', '--no-progress', '-c', '2', '-o', spec['out']] + files, standalone_mode=False)
+        cli.main(['signatures', 'create', '--no-progress', '-c', '2', '-o', spec['out']] + extra + files, standalone_mode=False)
     finally:
         import shutil
         os.chdir('/')
